@@ -348,6 +348,7 @@ NAMED_PROGS = [
 ]
 
 ATOMS = [None, 0, 1, 2, -1, 3, '', 'a', 'b', 's']
+HASH_ATOMS = [None, 0, 1, 2, -1, 3, 7, 10]
 KEYS = ['a', 'b', 0, 1, None, 'k', 2, '']
 CONDS = [['always'], ['isNone'], ['isInt'], ['isStr'], ['isCont'], ['isKind', 'd'], ['isKind', 'l'],
          ['isKind', 't'], ['isKind', 's'], ['isKind', 'f'], ['isEmptyCont'], ['falsy'], ['valIs', 1],
@@ -509,7 +510,10 @@ class C08(Property):
             yield c
         for c in self.adversarial(rng, 2000 if self.thorough else 400):
             yield c
-        n_rand = 600000 if self.thorough else 40000
+        if self.thorough:
+            for c in self.sampled_graphs3(rng, 150000):
+                yield c
+        n_rand = 1200000 if self.thorough else 60000
         for i in range(n_rand):
             yield self.random_case(rng, big=(i % 7 == 0))
 
@@ -627,6 +631,17 @@ class C08(Property):
                         if i % 6 == 0:
                             yield self.mk(nodes, [0], [], mode='Q')
 
+    def sampled_graphs3(self, rng, n):
+        """3-node graphs over all five kinds, items = atom or reference to any node (sampled uniformly)"""
+        for _ in range(n):
+            nodes = []
+            for j in range(3):
+                kd = rng.choice('dltsfdlt')
+                its = [rng.choice([None, 1, [0], [1], [2]]) for _ in range(rng.randint(0, 3))]
+                nodes.append([kd, [[('a', 'b', 0)[x], o] for x, o in enumerate(its)] if kd == 'd' else its])
+            yield self.mk(nodes, [0], self.random_prog(rng), mode='Q' if rng.random() < 0.2 else 'M',
+                          reraise=0 if rng.random() < 0.2 else 1)
+
     def random_prog(self, rng):
         r = rng.random()
         if r < 0.3:
@@ -647,7 +662,9 @@ class C08(Property):
         def gen(d, need_hash):
             r = rng.random()
             if d <= 0 or r < 0.3:
-                return rng.choice(ATOMS)
+                # no str inside sets: str hashes (hence set order) differ from process to process,
+                # which would make a replayed case behave differently from the recorded one
+                return rng.choice(HASH_ATOMS if need_hash else ATOMS)
             if nodes and rng.random() < p_share:
                 cands = [i for i in range(len(nodes)) if i in hashable and (hashable[i] or not need_hash)]
                 if cands:
@@ -736,7 +753,7 @@ class C08(Property):
                 n1 = [['u', [0]], ['v', [1]]] if b == 'd' else [[0], [1]]
                 yield self.mk([[a, n0], [b, n1]], [0], [] if t % 3 == 0 else prog, mode=mode, default=1 if t % 3 == 0 else 0)
             else:              # nested sets / frozensets of tuples
-                nodes = [['l', [[1], [2], [1]]], ['s', [[2], [3], 1, 'a']], ['f', [[3], 2]], ['t', [1, [4]]], ['t', []]]
+                nodes = [['l', [[1], [2], [1]]], ['s', [[2], [3], 1, 8]], ['f', [[3], 2]], ['t', [1, [4]]], ['t', []]]
                 yield self.mk(nodes, [0], prog, mode=mode)
 
     # ------------------------------------------------------------------ model line
